@@ -65,3 +65,62 @@ Proof.
   exists 100, 0x1p-1%float, 0x1.0189374bc6a7fp-1%float.
   split; vm_compute; reflexivity.
 Qed.
+
+(** ** "Full": the observables' own times are merged into the solver's times *)
+Lemma insert_sorted_keeps : forall x l y, In y l -> In y (insert_sorted x l).
+Proof.
+  induction l as [|z l IH]; intros y Hy; simpl; [contradiction|].
+  destruct (f_lt x z); [right; assumption|].
+  destruct (f_eq x z); [assumption|].
+  destruct Hy as [->|Hy]; [left; reflexivity|right; apply IH; assumption].
+Qed.
+
+Lemma insert_sorted_has : forall x l,
+  exists y, In y (insert_sorted x l) /\ (y = x \/ f_eq x y = true).
+Proof.
+  induction l as [|z l IH]; simpl.
+  - exists x. split; [left; reflexivity|left; reflexivity].
+  - destruct (f_lt x z) eqn:E1.
+    + exists x. split; [left; reflexivity|left; reflexivity].
+    + destruct (f_eq x z) eqn:E2.
+      * exists z. split; [left; reflexivity|right; assumption].
+      * destruct IH as [y [Hy Hc]]. exists y. split; [right; assumption|assumption].
+Qed.
+
+Lemma union1d_covers : forall a b x, In x (a ++ b) ->
+  exists y, In y (union1d a b) /\ (y = x \/ f_eq x y = true).
+Proof.
+  intros a b. unfold union1d. induction (a ++ b) as [|z l IH]; intros x Hx; [contradiction|].
+  simpl. destruct Hx as [->|Hx].
+  - apply insert_sorted_has.
+  - destruct (IH x Hx) as [y [Hy Hc]]. exists y. split; [apply insert_sorted_keeps; assumption|assumption].
+Qed.
+
+(** every own evaluation time [e] of every observable reaches the solver: up to
+    IEEE equality ([np.unique]) there is a grid-or-own relative time [r] equal
+    to [e] whose microsecond value (again up to IEEE equality) is one of the
+    solver's times *)
+Theorem full_merges_own_times : forall rate extras T ts e,
+  extras <> [] -> full_rel_times rate extras T = Some ts -> In e extras ->
+  exists r u, (r = e \/ f_eq e r = true) /\
+              (u = ((r * f_of_dur T) * f_1em3)%float \/ f_eq ((r * f_of_dur T) * f_1em3)%float u = true) /\
+              In (rel_time T u) ts.
+Proof.
+  intros rate extras T ts e Hne H He. unfold full_rel_times in H.
+  destruct extras as [|e0 ex]; [contradiction|].
+  remember (e0 :: ex) as extras.
+  set (grid := map (fun i => (f_of_dur i / f_of_dur T)%float)
+                 (linspace_int (T - 1) (trunc0 (rate * f_of_dur T)%float))) in H.
+  destruct (union1d_covers grid extras e) as [r [Hr Hre]].
+  { apply in_or_app. right. assumption. }
+  unfold set_eval_times in H.
+  set (value := map (fun r0 => ((r0 * f_of_dur T) * f_1em3)%float) (union1d grid extras)) in H.
+  destruct (f_gt (f_maxl value zero) (f_of_dur T / f_1e3)); [discriminate|].
+  destruct (f_lt (f_minl value zero) zero); [discriminate|].
+  inversion H; subst ts; clear H.
+  destruct (union1d_covers value [zero; (f_of_dur T / f_1e3)%float] ((r * f_of_dur T) * f_1em3)%float)
+    as [u [Hu Hue]].
+  { apply in_or_app. left. unfold value. apply (in_map (fun r0 => ((r0 * f_of_dur T) * f_1em3)%float)). assumption. }
+  exists r, u. split; [assumption|]. split; [assumption|].
+  apply in_map. assumption.
+Qed.
